@@ -6,7 +6,11 @@ props=[json.loads(l) for l in open(f'{V}/properties.jsonl')]
 claims=json.load(open(f'{V}/tools/claims.json'))
 na=json.load(open(f'{V}/tools/na.json'))
 hooks=subprocess.run(['git','-C','/repo','log','--format=%H %s'],capture_output=True,text=True).stdout.strip().split('\n')
-hook_commits=[l.split()[0] for l in hooks if l.split(' ',1)[1].startswith('verif:')]
+def only_contract_files(h):
+    fs=subprocess.run(['git','-C','/repo','show','--format=','--name-only',h],capture_output=True,text=True).stdout.split()
+    return bool(fs) and all(f.endswith('verif_contracts.go') for f in fs)
+# hook commits: every commit that touches only the guarded comment-only contract files
+hook_commits=[l.split()[0] for l in hooks if only_contract_files(l.split()[0])]
 checks=[]
 for p in props:
     c=claims.get(p['id'])
